@@ -319,7 +319,10 @@ func (sps *RawSPS) Decode(data []byte) (err error) {
 	if sps.ProfileIdc == 100 || sps.ProfileIdc == 110 ||
 		sps.ProfileIdc == 122 || sps.ProfileIdc == 244 ||
 		sps.ProfileIdc == 44 || sps.ProfileIdc == 83 ||
-		sps.ProfileIdc == 86 || sps.ProfileIdc == 118 {
+		sps.ProfileIdc == 86 || sps.ProfileIdc == 118 ||
+		sps.ProfileIdc == 128 || sps.ProfileIdc == 138 ||
+		sps.ProfileIdc == 139 || sps.ProfileIdc == 134 ||
+		sps.ProfileIdc == 135 {
 		sps.ChromaFormatIdc = r.ReadUe8()
 
 		if sps.ChromaFormatIdc == 3 {
